@@ -108,4 +108,48 @@ SerValue(v) ==
                                           ELSE fold(i + 1, LInsert(acc, v.entries[i].k, SerValue(v.entries[i].v)))
                       IN VObj(fold(1, <<>>))
     [] OTHER -> v
+
+(***************************************************************************)
+(* Value's own Deserialize (C17): the ValueVisitor as a function of the      *)
+(* term a self-describing deserializer presents.                             *)
+(*   unit / none -> null; bool; integers -> numbers (decimal); finite floats  *)
+(*   -> a number denoting that float (spelling F), non-finite -> null;        *)
+(*   char / str -> string; some(x) -> x; seq / tuple -> array;                *)
+(*   map: keys must be strings; a FIRST key equal to the number token makes   *)
+(*   the map denote the number spelled by its (string) value; otherwise an    *)
+(*   object built with insert (a repeated key keeps its first position and    *)
+(*   its last value); anything else (bytes, newtype structs, enums) is an     *)
+(*   "invalid type" error.                                                    *)
+(***************************************************************************)
+RECURSIVE DeValue(_, _)
+RECURSIVE DeAll(_, _, _, _)
+RECURSIVE DeMap(_, _, _, _)
+DeAll(xs, i, acc, F) == IF i > Len(xs) THEN Ok(acc)
+                        ELSE LET r == DeValue(xs[i], F) IN IF r.ok THEN DeAll(xs, i + 1, Append(acc, r.v), F) ELSE r
+KeyString(k) == IF k.d = "str" THEN Ok(k.s) ELSE IF k.d = "char" THEN Ok(<<k.c>>) ELSE Err("invalid_type")
+DeMap(kvs, i, acc, F) ==
+  IF i > Len(kvs) THEN Ok(VObj(acc))
+  ELSE LET k == KeyString(kvs[i][1]) IN
+       IF ~k.ok THEN k
+       ELSE LET v == DeValue(kvs[i][2], F) IN IF ~v.ok THEN v ELSE DeMap(kvs, i + 1, LInsert(acc, k.v, v.v), F)
+DeValue(d, F) ==
+  CASE d.d \in {"unit", "none"} -> Ok(VNull)
+    [] d.d = "bool" -> Ok(VBool(d.b))
+    [] d.d = "int" -> Ok(VNum(d.n))
+    [] d.d = "float" -> IF d.cls = "finite" THEN Ok(VNum(F[d])) ELSE Ok(VNull)
+    [] d.d = "char" -> Ok(VStr(<<d.c>>))
+    [] d.d = "str" -> Ok(VStr(d.s))
+    [] d.d = "some" -> DeValue(d.x, F)
+    [] d.d \in {"seq", "tuple"} -> LET r == DeAll(d.xs, 1, <<>>, F) IN IF r.ok THEN Ok(VArr(r.v)) ELSE r
+    [] d.d = "map" ->
+         IF d.kvs = <<>> THEN Ok(VObj(<<>>))
+         ELSE LET k1 == KeyString(d.kvs[1][1]) IN
+              IF ~k1.ok THEN k1
+              ELSE IF k1.v = Token
+                   THEN LET val == d.kvs[1][2] IN
+                        IF val.d \notin {"str", "char"} THEN Err("invalid_type")
+                        ELSE IF ValidNumber(IF val.d = "str" THEN val.s ELSE <<val.c>>) THEN Ok(VNum(IF val.d = "str" THEN val.s ELSE <<val.c>>))
+                        ELSE Err("invalid_number")
+              ELSE DeMap(d.kvs, 1, <<>>, F)
+    [] OTHER -> Err("invalid_type")
 =============================================================================
